@@ -417,6 +417,23 @@ func c12KRun(c *vcore.Ctx) *vcore.Violation {
 		case "launch_failure":
 			script = []string{"exit", "0"}
 		}
+		if kind == "container" && ct != nil && src.Bool(1, 4, "refused_open_batch") {
+			// a file batch whose reply the control socket refuses (more files than one packet carries): the call
+			// fails as a whole, and nothing of it may stay behind in the init
+			var batch []container.OpenCmd
+			for k := 0; k < 260+src.Int(40, "nbatch"); k++ {
+				batch = append(batch, container.OpenCmd{Path: fmt.Sprintf("/w/many/%d", k), Flag: os.O_RDWR | os.O_CREATE, Perm: 0644, MkdirAll: true})
+			}
+			c.Event("refused_open_batch")
+			c.Fault("open_batch_reply_refused")
+			var rs []container.OpenCmdResult
+			watchdog(40*time.Second, func() { rs, _ = ct.env.Open(batch) })
+			for _, r := range rs {
+				if r.File != nil {
+					r.File.Close()
+				}
+			}
+		}
 		extra := []*os.File{rv.announceW, rv.releaseR, pidW}
 		var res runner.Result
 		// containers: the callback may be asked for after the exec (then the program already runs, and may
